@@ -22,7 +22,7 @@ SPEC = dict(
     rule=("real osutil.EnsureDirStateGlobs / EnsureDirState (and through them EnsureFileState, AtomicWrite, AtomicSymlink) on "
           "temp directories. (a) ALL combinations of 9 initial nodes (absent, regular with right/wrong content/mode, symlink to an "
           "identical file / dangling / to a directory, empty and non-empty directory in the way) x 8 desired states (absent, regular "
-          "with State() failing at call 0/1/2/3, symlink, symlink failing at the write, unsupported type) for one managed name "
+          "with State() failing at call 0/1/2/3, symlink, symlink failing at the write, unsupported type, osutil.FileReference / FileReferencePlusMode to a file, to a missing file, to a directory) for one managed name "
           "(quick) and for two managed names (thorough, 5184 cases) next to an unrelated file; (b) random directories over a pool "
           "of 10 names and 10 glob patterns (1-2 globs, literal, *, ?), wrong contents/modes, symlinks, directories in the way, "
           "non-empty directories (os.Remove fails), umask 0/022/027/077 with modes the umask clears, names that do not match or "
